@@ -3,7 +3,9 @@ package lua
 import (
 	"context"
 	"fmt"
+	"io"
 	"os"
+	"strings"
 )
 
 type LValueType int
@@ -105,8 +107,26 @@ func (st LString) Format(f fmt.State, c rune) {
 			nm.Format(f, c)
 			return
 		}
+	case 's':
+		formatBytes(string(st), f, true)
+		return
 	}
 	defaultFormat(string(st), f, c)
+}
+
+// formatBytes writes s as C's %s/%c do: precision and width count bytes, not runes.
+func formatBytes(s string, f fmt.State, usePrec bool) {
+	if p, ok := f.Precision(); ok && usePrec && p < len(s) {
+		s = s[:p]
+	}
+	if w, ok := f.Width(); ok && w > len(s) {
+		if f.Flag('-') {
+			s += strings.Repeat(" ", w-len(s))
+		} else {
+			s = strings.Repeat(" ", w-len(s)) + s
+		}
+	}
+	io.WriteString(f, s)
 }
 
 func (nm LNumber) String() string {
@@ -128,7 +148,7 @@ func (nm LNumber) Format(f fmt.State, c rune) {
 	case 'o', 'x', 'X':
 		defaultFormat(uint64(int64(nm)), f, c)
 	case 'c':
-		defaultFormat(string([]byte{byte(int64(nm))}), f, 's')
+		formatBytes(string([]byte{byte(int64(nm))}), f, false)
 	case 'e', 'E', 'f', 'F', 'g', 'G':
 		defaultFormat(float64(nm), f, c)
 	case 'i':
